@@ -41,6 +41,18 @@ CTCS = [
 ]
 
 
+# header variants (namespace, include lines, import lines): every form of a language level the grammar has - the major level
+# alone, major.*, major.minor with every minor level - imports with and without alias, sections present or absent
+HEADER_VARIANTS = [
+    ('Ref', ['Boolean', 'Arithmetic', 'Type'], ['other.sub as osub', 'plain']),
+    ('Ref', ['Boolean.group-cardinality', 'Arithmetic.*'], ['other.sub as osub']),
+    (None, ['Type.*', 'Boolean.*', 'Arithmetic'], None),
+    ('N_s', ['Arithmetic.feature-cardinality', 'Arithmetic.aggregate-function', 'Type.string-constraints', 'Boolean'], None),
+    ('Ref', None, ['a.b.c']),
+    (None, ['Type'], ['x as y', 'z']),
+]
+
+
 def ident(name, opts):
     if opts.get('quote') or not uvltok.is_id_strict(name, uvltok.ID_FIRST, uvltok.ID_REST, uvltok.RESERVED):
         return '"' + name + '"'
@@ -96,7 +108,13 @@ def emit(shape, cards, names, abstract, types, fcards, attrs, trees, opts):
         lines.append('// generated by the reference emitter')
     if opts.get('headers'):
         # (the installed grammar accepts the headers only in this order, without blank lines, and no comment line before 'namespace')
-        lines += ['namespace Ref', 'include', ind + 'Boolean.group-cardinality', ind + 'Arithmetic.*', 'imports', ind + 'other.sub as osub']
+        hv = HEADER_VARIANTS[(opts['headers'] if type(opts['headers']) is int else 1) % len(HEADER_VARIANTS)]
+        if hv[0]:
+            lines.append('namespace ' + hv[0])
+        if hv[1]:
+            lines += ['include'] + [ind + x for x in hv[1]]
+        if hv[2]:
+            lines += ['imports'] + [ind + x for x in hv[2]]
         if opts.get('comments'):
             lines.append('// generated by the reference emitter')
     lines.append('features' + (' // the tree' if opts.get('comments') else ''))
@@ -360,6 +378,16 @@ def batch_operator_pairs(part, parts, seed):
     shape = (((),), ((),), ((),))          # root with three single-child relations
     chunk = 12
     chunks = [trees[i:i + chunk] for i in range(0, len(trees), chunk)][part::parts]
+    if part == 0:       # every header variant, with and without comment lines, tabs and blanks
+        for h in range(1, len(HEADER_VARIANTS) + 1):
+            for extra in ({}, {'comments': True}, {'spaces': True, 'quote': True}):
+                args = [shape, [(0, 1), (1, 1), (0, 1)], 1, dict(extra, headers=h)]
+                res['instances'] += 1
+                res['native_runs'] += 1
+                res['nontrivial'] += 1
+                bad = file_case(*args)
+                if bad:
+                    res['violations'].append({'label': 'uvl-header-variants', 'detail': bad[0][:700], 'replay_func': 'file_case', 'replay_args': args})
     for ch in chunks:
         for opts in ({}, {'parens': True}, {'quote': True, 'spaces': True}):
             args = [shape, [(0, 1), (0, 1), (0, 1)], 0, opts, None, ch]
@@ -416,6 +444,8 @@ def batch_surface(max_n, lo, hi, seed, per):
                 a = rnd.randint(0, k)
                 cards.append((a, rnd.choice([-1] + list(range(max(a, 1), k + 1)))))
             opts = {o: rnd.random() < 0.5 for o in OPTS}
+            if opts['headers']:
+                opts['headers'] = 1 + rnd.randrange(len(HEADER_VARIANTS))       # which header variant (0 is falsy: no headers)
             args = [shape, cards, rnd.randrange(len(CTCS)), opts]
             if rnd.random() < 0.5:      # bounds of one, two and three digits, also above the number of children (read as written)
                 wide = [0, 1, 2, 3, 9, 10, 11, 12, 20, 99, 100, 101]
